@@ -412,7 +412,7 @@ impl Keyword {
             return regex::Regex::new(&self.0);
         }
 
-        let mut regex_str = regex::escape(&self.0.replace("\\\"", "\"")).replace(' ', "\\s");
+        let mut regex_str = regex::escape(&self.0).replace(' ', "\\s");
 
         regex_str.insert_str(0, "(?i)");
         if self.1 == KeywordType::Wildcard {
